@@ -135,7 +135,7 @@ pub fn run(tier: Tier, seed: u64) -> i32 {
                     prop: PROP.into(),
                     kind: sp.name.clone(),
                     label,
-                    files: vec![("f".into(), text)],
+                    files: vec![(if i % 16 == 15 { "@file:f" } else { "f" }.into(), text)],
                     expect: json!(null),
                 })
             },
